@@ -35,7 +35,7 @@ manifest = {
     "setup_cmd": "./setup.sh",
     "hooks": {
         "guard": "verif (build tag; no hook is committed in /repo: instrumentation is generated at check time)",
-        "enable": "none needed: the storage proxy is generated from the tree's Database interface at build time and placed in Backend.DB; the step-level engine instruments a scratch copy through go build -overlay",
+        "enable": "none needed in /repo: the storage proxy is generated from the tree's Database interface at build time and placed in the exported Backend.DB field; everything else is a build overlay (go test -c -overlay, tools/geninstr.py) over generated copies of the CURRENT pkg/locker/locker.go, pkg/cmap/cmap.go, pkg/cache/lru_with_stats.go, server/backend/pubsub/*.go, server/backend/database/memory/database.go, api/types/id.go plus the overlay-only package pkg/zzsimrt (hook variables: lock/yield/select-order/map-order/id/shard); with nil hooks every rewritten line behaves like the original; nothing is written to /repo",
         "baseline_off_cmd": "cd /repo && GOFLAGS=-mod=mod go test -vet=off -count=1 -timeout 25m ./...",
         "source_commits": [],
         "add_only": True,
